@@ -82,6 +82,8 @@ static int decode_filename(const char *filename, size_t line_no, char *buffer)
 
 		if (*src != '\0')
 			return -1;
+
+		*dst = '\0';
 	}
 
 	if (canonicalize_name(buffer))
